@@ -5,7 +5,7 @@ All theorems are about the Model functions the driver executes (OFV/Model/C16.le
 (OFV/Spec/Basic.lean) that give the reductions their meaning.
 
 Not proved here (see OPEN_STATEMENTS in harness/c16.py): the operator-level statements
-(spectrum of the tapered operator, freeze_orbitals with prune=True, SCBK sector): Spec oracle only.
+(spectrum of the tapered operator, SCBK sector): Spec oracle only.
 -/
 import OFV.Proofs.C16
 import OFV.Proofs.C16Pauli
@@ -13,6 +13,7 @@ import OFV.Proofs.C16Loop
 import OFV.Proofs.C16Proj
 import OFV.Proofs.C16Embed
 import OFV.Proofs.C16Freeze
+import OFV.Proofs.C16Prune
 
 namespace OFV.C16
 open OFV OFV.Spec OFV.Model OFV.Model.C16 OFV.C16P OFV.Generated
@@ -375,6 +376,50 @@ example : (freezeOrbitalsX eqTolerance [([(2, 1), (1, 1), (0, 0), (1, 0)], 1), (
       [1] [3] false).2 = true ∧
     (freezeOrbitalsX eqTolerance [([(2, 1), (1, 1), (0, 0), (1, 0)], 1), ([(0, 1), (0, 0)], ⟨1/2, 0⟩)]
       [1] [3] false).1 = [([(2, 1), (0, 0)], 1), ([(0, 1), (0, 0)], ⟨1/2, 0⟩)] := by
+  decide +kernel
+
+/-- **`prune_unused_indices_sound`**: for a FermionOperator dictionary `C` (distinct keys) and `S` the
+increasing list of the modes `C` acts on, the pruned operator has between the basis states `s, x` of
+the `|S|`-mode register the matrix elements of `C` between the states spread over `S`
+(`Spec.C16.embed S []`: bit `j` goes to mode `S[j]`): the relabelling is the order-preserving
+bijection, so the Jordan–Wigner-like signs of the Spec (occupied modes below) are unchanged. -/
+theorem prune_unused_indices_sound (C : Model.Op) (hwf : Dict.WF C) (S : List Nat) (hS : S.Pairwise (· < ·))
+    (hmem : ∀ x, x ∈ S ↔ ∃ e ∈ C, ∃ g ∈ e.1, g.1 = x) (s x : Nat)
+    (hs : s < 2 ^ S.length) (hx : x < 2 ^ S.length) :
+    GV.coeff (applyOp .fermion (pruneUnusedIndices C) [s]) [x]
+      = GV.coeff (applyOp .fermion C [Spec.C16.embed S [] s]) [Spec.C16.embed S [] x] := by
+  obtain ⟨u1, u2⟩ := sortedUsed_spec C
+  have hSeq : S = sortedUsed C := sorted_unique _ _ hS u1 (fun y => by rw [hmem y, u2 y])
+  subst hSeq
+  exact prune_den C hwf s x hs hx
+
+/-- non-vacuity: `a†_5 a_2 + 2 a†_7 a_7` is relabelled to `a†_1 a_0 + 2 a†_2 a_2` -/
+example : pruneUnusedIndices [([(5, 1), (2, 0)], 1), ([(7, 1), (7, 0)], 2)]
+      = [([(1, 1), (0, 0)], 1), ([(2, 1), (2, 0)], 2)] ∧
+    Dict.WF ([([(5, 1), (2, 0)], 1), ([(7, 1), (7, 0)], 2)] : Model.Op) ∧
+    ([2, 5, 7] : List Nat).Pairwise (· < ·) := by
+  refine ⟨by decide +kernel, by unfold Dict.WF Dict.keys; decide, by decide⟩
+
+/-- **`freeze_orbitals_sound` with `prune=True`** at the live tolerance: with `S` the increasing list of
+the modes the unpruned result acts on, `⟨x| freeze_orbitals(A, prune=True) |s⟩ = ⟨embed x| A |embed s⟩`
+for all `s, x < 2^|S|`, where `Spec.C16.embed S occupied` sends bit `j` to mode `S[j]` and sets the
+occupied frozen modes — the statement the harness oracle (`c16.spec_embed_eq`) evaluates; hypotheses:
+distinct frozen orbitals, a dictionary with distinct keys and actions 0/1, exactness flag `true`. -/
+theorem freeze_orbitals_prune_sound (tol : Rat) (A : Model.Op) (occupied unoccupied : List Nat)
+    (hnd : (occupied ++ unoccupied).Nodup) (hwf : Dict.WF A) (hA : ∀ e ∈ A, ∀ g ∈ e.1, g.2 < 2)
+    (hex : (freezeOrbitalsX tol A occupied unoccupied true).2 = true)
+    (S : List Nat) (hS : S.Pairwise (· < ·))
+    (hmem : ∀ x, x ∈ S ↔ ∃ e ∈ freezeOrbitals tol A occupied unoccupied false, ∃ g ∈ e.1, g.1 = x)
+    (s x : Nat) (hs : s < 2 ^ S.length) (hx : x < 2 ^ S.length) :
+    GV.coeff (applyOp .fermion (freezeOrbitals tol A occupied unoccupied true) [s]) [x]
+      = GV.coeff (applyOp .fermion A [Spec.C16.embed S occupied s]) [Spec.C16.embed S occupied x] :=
+  freeze_prune_den tol A occupied unoccupied hnd hwf hA hex S hS hmem s x hs hx
+
+/-- non-vacuity: the example of `freeze_orbitals_sound` pruned: modes `{0, 2}` become `{0, 1}` -/
+example : (freezeOrbitalsX eqTolerance [([(2, 1), (1, 1), (0, 0), (1, 0)], 1), ([(0, 1), (0, 0)], ⟨1/2, 0⟩)]
+      [1] [3] true).2 = true ∧
+    (freezeOrbitalsX eqTolerance [([(2, 1), (1, 1), (0, 0), (1, 0)], 1), ([(0, 1), (0, 0)], ⟨1/2, 0⟩)]
+      [1] [3] true).1 = [([(1, 1), (0, 0)], 1), ([(0, 1), (0, 0)], ⟨1/2, 0⟩)] := by
   decide +kernel
 
 end OFV.C16
